@@ -696,7 +696,11 @@ func (s *Session) parseArgs(arg string) (args map[string]string, ok bool) {
 }
 
 func (s *Session) reset() {
-	s.enterState(READY)
+	if s.state != GREET {
+		// A client that has not sent HELO/EHLO yet stays in GREET: RSET must not open the
+		// door to MAIL without a greeting.
+		s.enterState(READY)
+	}
 	s.from = nil
 	s.recipients = nil
 }
